@@ -58,7 +58,7 @@ func (p *chainPool) all() []*chainInfo {
 }
 
 type job struct {
-	stream string // scn | recipe | recipe-time | recipe-fwd
+	stream string // scn | recipe | recipe-time | recipe-fwd | recipe-pad
 	idx    int
 }
 
@@ -71,6 +71,8 @@ func runJob(c *verdict.Ctx, k sink, pool []*chainInfo, j job) {
 		sc = genTimeRecipe(c.Rand("recipe-time", j.idx), j.idx, pool)
 	case "recipe-fwd":
 		sc = genFwdRecipe(c.Rand("recipe-fwd", j.idx), j.idx, pool)
+	case "recipe-pad":
+		sc = genPadRecipe(c.Rand("recipe-pad", j.idx), j.idx, pool)
 	default:
 		sc = genScenario(c.Rand("scn", j.idx), j.idx, pool)
 	}
@@ -192,6 +194,13 @@ func jobList(c *verdict.Ctx, race bool) []job {
 	}
 	for i := 0; i < nfwd; i++ {
 		jobs = append(jobs, job{"recipe-fwd", i})
+	}
+	npad := c.N(216, 4320)
+	if race {
+		npad = c.N(48, 432)
+	}
+	for i := 0; i < npad; i++ {
+		jobs = append(jobs, job{"recipe-pad", i})
 	}
 	for i := 0; i < nrand; i++ {
 		jobs = append(jobs, job{"scn", i})
